@@ -205,6 +205,21 @@ CHECKS = {
   note=("Particles are kept out of the +-1e-5 threshold band by "
         "construction; one fluid array, unit normals."),
   technique="model-based property-based testing (Hypothesis histories) against a record model"),
+ 'C14': dict(
+  text=("1-3 source arrays with fixed property sets (one compile per method "
+        "x kernel x number of arrays), dims 1-3, per-particle h, m, rho, "
+        "random/constant/linear fields, explicit targets or automatic "
+        "grids, optional periodic domain, then up to four steps of "
+        "set_interpolation_points / set_domain / update_particle_arrays / "
+        "move+update / new data; every field is compared with a numpy "
+        "evaluation of the defining sums with the Python kernel over all "
+        "sources and periodic images (Shepard bounds and zero, sph, splash "
+        "variants, order1 via the moment system where cond < 1e6 and exact "
+        "reproduction of linear fields)."),
+  note=("Targets on a kernel cut-off band or with a denominator below the "
+        "documented 1e-12 literal are skipped; degenerate (coincident) "
+        "clouds are a precondition."),
+  technique="property-based testing (Hypothesis, stateful tail) against a numpy reference evaluation of the defining formulas"),
 }
 
 NOT_APPLICABLE = [
